@@ -231,7 +231,13 @@ Definition names_ok (n : net) (v : vid) : bool :=
   negb (existsb (String.eqb (vvar v)) svars) && negb (existsb (String.eqb "weight") svars) && negb (String.eqb (vvar v) "weight") &&
   forallb (fun x => forallb (fun z => negb (is_vk_of z x) &&
                                       forallb (fun j => negb (String.eqb x (z ++ "_in" ++ digit_str j))) (seq 0 k)) B) B.
-Definition guard_names (n : net) : bool := forallb (fun e => names_ok n (etgt e)) (nedges n).
+(* MODEL SWITCHES for the two name-clash classes (read by c01.py as well): true = the repair is in the code
+   (/verif/fixes/proposed_fix_C01_D22.diff: generated in-edge names are made unique against the target name and one another;
+    /verif/fixes/proposed_fix_C01_D22b.diff: labels written into an operator's equations avoid the operator's variable names).
+   With a switch on, the corresponding guard holds of every network (the generated names are fresh, as the model assumes). *)
+Definition fixed_D22 : bool := false.
+Definition fixed_D22b : bool := false.
+Definition guard_names (n : net) : bool := fixed_D22 || forallb (fun e => names_ok n (etgt e)) (nedges n).
 
 (* An operator input `a` with >= 2 sources (same-node producers, plus the in_edge operator if any edge reaches it) is rewritten
    TEXTUALLY: `replace(eq, a, "(l1+...+lk)")` with the backend labels of the sources, which have the shape a or a_v<k>
@@ -239,6 +245,7 @@ Definition guard_names (n : net) : bool := forallb (fun e => names_ok n (etgt e)
    the rewritten equation (EdgesProofs.label_clash_refuted).  Since fix D80 (replace_in_expr replaces exact sub-trees only)
    this is the only remaining way for `a` and `a_v<k>` to be confused; inputs with fewer than 2 sources are not rewritten. *)
 Definition guard_labels (n : net) : bool :=
+  fixed_D22b ||
   forallb (fun p : string * list oper =>
     forallb (fun o =>
       forallb (fun d =>
